@@ -1473,9 +1473,13 @@ class Cache:
         if prefix is None:
             min_key = 0
             max_key = 999999999999999
+            same_length = ''
         else:
             min_key = prefix + '-000000000000000'
             max_key = prefix + '-999999999999999'
+            # Keys of a queue whose prefix extends this one lie in the same
+            # range but are longer.
+            same_length = ' AND length(key) = %d' % len(max_key)
 
         now = time.time()
         raw = True
@@ -1485,9 +1489,9 @@ class Cache:
         order = {'back': 'DESC', 'front': 'ASC'}
         select = (
             'SELECT key FROM Cache'
-            ' WHERE ? < key AND key < ? AND raw = ?'
+            ' WHERE ? < key AND key < ? AND raw = ?%s'
             ' ORDER BY key %s LIMIT 1'
-        ) % order[side]
+        ) % (same_length, order[side])
 
         with self._transact(retry, filename) as (sql, cleanup):
             rows = sql(select, (min_key, max_key, raw)).fetchall()
@@ -1583,16 +1587,20 @@ class Cache:
         if prefix is None:
             min_key = 0
             max_key = 999999999999999
+            same_length = ''
         else:
             min_key = prefix + '-000000000000000'
             max_key = prefix + '-999999999999999'
+            # Keys of a queue whose prefix extends this one lie in the same
+            # range but are longer.
+            same_length = ' AND length(key) = %d' % len(max_key)
 
         order = {'front': 'ASC', 'back': 'DESC'}
         select = (
             'SELECT rowid, key, expire_time, tag, mode, filename, value'
-            ' FROM Cache WHERE ? < key AND key < ? AND raw = 1'
+            ' FROM Cache WHERE ? < key AND key < ? AND raw = 1%s'
             ' ORDER BY key %s LIMIT 1'
-        ) % order[side]
+        ) % (same_length, order[side])
 
         if expire_time and tag:
             default = default, None, None
@@ -1698,16 +1706,20 @@ class Cache:
         if prefix is None:
             min_key = 0
             max_key = 999999999999999
+            same_length = ''
         else:
             min_key = prefix + '-000000000000000'
             max_key = prefix + '-999999999999999'
+            # Keys of a queue whose prefix extends this one lie in the same
+            # range but are longer.
+            same_length = ' AND length(key) = %d' % len(max_key)
 
         order = {'front': 'ASC', 'back': 'DESC'}
         select = (
             'SELECT rowid, key, expire_time, tag, mode, filename, value'
-            ' FROM Cache WHERE ? < key AND key < ? AND raw = 1'
+            ' FROM Cache WHERE ? < key AND key < ? AND raw = 1%s'
             ' ORDER BY key %s LIMIT 1'
-        ) % order[side]
+        ) % (same_length, order[side])
 
         if expire_time and tag:
             default = default, None, None
